@@ -209,6 +209,9 @@ pub fn run(tier: Tier, replay: Option<&str>) -> i32 {
         let (ModelOutcome::Ok(_), Some(d)) = (mo, d) else { return };
         let env = d.env.merge_disjoint(&c.eenv);
         let mc = cost::message(&env, d.header_len as u64, &d.vals, &d.tys, &c.etys, d.header.table.len() as u64, true);
+        if !c.names.is_empty() || c.family.starts_with('T') {
+            return;
+        }
         let renv = bridge::to_real_env(&c.eenv);
         let rtys: Vec<Type> = c.etys.iter().map(bridge::to_real_ty).collect();
         let m = Msg { label: format!("untyped:{}:{}", c.family, tys_text(&c.etys)), bytes: c.bytes.clone(), model: Some(mc), untyped: true };
